@@ -411,6 +411,9 @@ func run(c *lib.Ctx) {
 	if c.Mine(0) {
 		e.restartPass()
 	}
+	if c.Mine(1) {
+		e.memoryPass()
+	}
 }
 
 // restartPass writes the file under a configuration that ignores nothing,
@@ -548,6 +551,96 @@ func (e *env) restartPass() {
 	}
 }
 
+// memoryPass: entries that are still in the memory buffer when their name is
+// put on the ignore list (through the configuration API), or when their client
+// gets the ignore flag, must not be returned any more either ("currently
+// ignored" does not depend on where an entry is stored).
+func (e *env) memoryPass() {
+	c := e.c
+	for _, kind := range []string{"name", "client-ip", "client-clientid"} {
+		dir, _ := os.MkdirTemp(e.dir, "c08m-")
+		var findClient func(ids []string) (*querylog.Client, error)
+		qh := handlers{}
+		eng, _ := aghnet.NewIgnoreEngine(nil)
+		mut := aghnet.NewIPMut(nil)
+		ql, _ := querylog.New(querylog.Config{Logger: srv.Discard, Ignored: eng, Anonymizer: mut, ConfigModified: func() {}, HTTPRegister: qh.reg,
+			FindClient: func(ids []string) (*querylog.Client, error) { return findClient(ids) }, BaseDir: dir, RotationIvl: 24 * time.Hour, MemSize: 100, Enabled: true, FileEnabled: true})
+		querylog.VerifC08InitWeb(ql)
+		id := "10.0.0.1"
+		if kind == "client-clientid" {
+			id = "cid-a"
+		}
+		sp := &srv.Spec{Mode: filtering.BlockingModeDefault, ProtectionEnabled: true, FilteringEnabled: true, QueryLog: ql, Anonymizer: mut,
+			Clients: []srv.ClientSpec{{Name: "kid", IDs: []string{id}}},
+			Conf:    func(c *dnsforward.ServerConfig) { c.TLSConf = &dnsforward.TLSConfig{ServerName: serverName} }}
+		a, err := srv.Build(sp)
+		if err != nil {
+			panic(err)
+		}
+		fc, _ := home.VerifClientsContainer(a.Clients, a.Server)
+		findClient = fc
+		type q struct{ name, sni, addr string }
+		reqs := []q{{"ignored.test", "", "10.0.0.1"}, {"other.test", "", "10.0.0.2"}, {"sub.ignored.test", "cid-a", "10.0.0.3"}}
+		for i, r := range reqs {
+			vtime.SetVirtual(time.Date(2024, 6, 5, 12, 0, i, 0, time.UTC))
+			req := &dns.Msg{MsgHdr: dns.MsgHdr{Id: uint16(i + 1)}, Question: []dns.Question{{Name: dns.Fqdn(r.name), Qtype: dns.TypeA, Qclass: dns.ClassINET}}}
+			pctx := &proxy.DNSContext{Req: req, Proto: proxy.ProtoUDP, Addr: netip.AddrPortFrom(netip.MustParseAddr(r.addr), 99)}
+			if r.sni != "" {
+				pctx.Proto, pctx.Conn = proxy.ProtoTLS, dnsforward.VerifTLSConn{ServerName: r.sni + "." + serverName}
+			}
+			_, _ = a.QueryCtx(pctx)
+		}
+		vtime.SetVirtual(time.Time{})
+		names := func() (l []string) {
+			_, body := qh.call(http.MethodGet, "/control/querylog", "")
+			var resp struct {
+				Data []struct {
+					Question struct {
+						Name string `json:"name"`
+					} `json:"question"`
+				} `json:"data"`
+			}
+			_ = json.Unmarshal(body, &resp)
+			for _, d := range resp.Data {
+				l = append(l, d.Question.Name)
+			}
+			return l
+		}
+		n1 := names()
+		want := 0
+		switch kind {
+		case "name":
+			code, body := qh.call(http.MethodPut, "/control/querylog/config/update", `{"enabled":true,"interval":86400000,"anonymize_client_ip":false,"ignored":["||ignored.test^"]}`)
+			if code != http.StatusOK {
+				c.EngineError(fmt.Sprintf("memory pass: config update answered %d %s", code, body))
+			}
+			want = 1 // other.test
+		default:
+			kid, ok := a.Clients.FindByName("kid")
+			if !ok {
+				c.EngineError("memory pass: client kid not found")
+			}
+			kid.IgnoreQueryLog = true
+			if uerr := a.Clients.Update(context.Background(), "kid", kid); uerr != nil {
+				c.EngineError("memory pass: client update: " + uerr.Error())
+			}
+			want = 2 // the two entries of the other clients
+		}
+		n2 := names()
+		c.Count("evals", 2)
+		c.Distinct("nontrivial", "memory:"+kind)
+		cs := caseC{Conf: config{Client: "memory:" + kind}, Obs: fmt.Sprintf("recorded=%v visible-after-the-change=%v", n1, n2)}
+		if len(n1) != len(reqs) {
+			c.EngineError(fmt.Sprintf("memory pass %s: %d of %d entries recorded", kind, len(n1), len(reqs)))
+		} else if len(n2) != want {
+			c.Violation("api-returns-currently-ignored:in-memory:"+kind, fmt.Sprintf("entries still in the memory buffer: after the %s became ignored the API must return %d of the %d entries, got %d (%s)", kind, want, len(reqs), len(n2), cs.Obs), cs)
+		}
+		a.Close()
+		_ = ql.Shutdown(context.Background())
+		os.RemoveAll(dir)
+	}
+}
+
 func replay(c *lib.Ctx, raw json.RawMessage) string {
 	srv.Quiet()
 	var cs caseC
@@ -557,6 +650,8 @@ func replay(c *lib.Ctx, raw json.RawMessage) string {
 	e := &env{c: c, dir: c.TmpDir}
 	if strings.HasPrefix(cs.Conf.Client, "restart:") {
 		e.restartPass()
+	} else if strings.HasPrefix(cs.Conf.Client, "memory:") {
+		e.memoryPass()
 	} else {
 		e.runConfig(&cs.Conf, []request{cs.Req})
 	}
